@@ -37,6 +37,10 @@ def body(run):
             b.update({"prop": "C20", "policy": pol, "side": rnd.choice(["server", "client"]), "sender": "real"})
             chans.append(b)
         cases.append({"prop": "C20", "channels": chans})
+    # the documented client set-up: a byte string of a delivered GetEndpointsResponse configures another
+    # channel, whose OPN exchange (other certificate / certificate chain) must not write into that message
+    for pol, mode in ([("Basic256Sha256", "Sign"), ("Basic256Sha256", "SignAndEncrypt")] if q else sc.SECURED):
+        cases.append({"prop": "C20", "kind": "endpoints", "channels": [{"policy": pol, "mode": mode, "side": "client", "plan": []}]})
     run.log("TLC: %d states, %d histories; %d cases (2-3 channels in parallel each)" % (run.cov["states"], len(rows), len(cases)))
     results = run.go_run(exe[0], ["-par", "6", "-batch", "4"], cases=cases, timeout=run.pick(900, 2400))
     if len(results) != len(cases):
@@ -50,6 +54,7 @@ def body(run):
     run.assumptions += [
         "aliasing is observed, not proved: a delivered message counts as unchanged if its re-encoding and its payload byte string are byte-identical after all later traffic on the same and on the parallel channels",
         "the snapshot is taken inside the receive goroutine before the next frame is read",
+        "cross-connection case: a GetEndpointsResponse delivered on a discovery channel supplies RemoteCertificate (not copied) for a second channel, whose peer answers the OPN request with OPN chunks carrying another certificate, a certificate chain and a longer certificate",
     ]
 
 
